@@ -1397,7 +1397,24 @@ impl<R: std::io::Read> Decoder<R> {
         use bitstream_io::{BigEndian, BitReader};
         use std::io::Read;
 
-        let mut crc16_reader: CrcReader<_, Crc16> = CrcReader::new(self.reader.by_ref());
+        // if total number of remaining samples isn't known,
+        // treat an EOF before the start of the next frame as the end of stream
+        // (this is an uncommon case)
+        let mut first_byte = [0; 1];
+        let prefix: &[u8] = match self.blocks.streaminfo().total_samples {
+            Some(_) => &[],
+            None => loop {
+                match self.reader.read(&mut first_byte) {
+                    Ok(0) => return Ok(None),
+                    Ok(_) => break &first_byte,
+                    Err(err) if err.kind() == std::io::ErrorKind::Interrupted => continue,
+                    Err(err) => return Err(err.into()),
+                }
+            },
+        };
+
+        let mut crc16_reader: CrcReader<_, Crc16> =
+            CrcReader::new(prefix.chain(self.reader.by_ref()));
 
         let header = match self
             .blocks
@@ -1421,16 +1438,8 @@ impl<R: std::io::Read> Decoder<R> {
                     .then_some(header)
                     .ok_or(Error::ShortBlock)
             })?,
-            // if total number of remaining samples isn't known,
-            // treat an EOF error as the end of stream
-            // (this is an uncommon case)
-            None => match FrameHeader::read(crc16_reader.by_ref(), self.blocks.streaminfo()) {
-                Ok(header) => header,
-                Err(Error::Io(err)) if err.kind() == std::io::ErrorKind::UnexpectedEof => {
-                    return Ok(None);
-                }
-                Err(err) => return Err(err),
-            },
+            // an EOF inside of a frame is an error, even if the total isn't known
+            None => FrameHeader::read(crc16_reader.by_ref(), self.blocks.streaminfo())?,
         };
 
         read_subframes(
